@@ -8,7 +8,9 @@ CB_CODES = {'decide_bool': 10, 'decide_option': 11, 'decide_result': 12, 'decide
             'decide_skip': 15, 'decide_result_skip': 16, 'decide_unit': 17, 'decide_value': 18,
             'decide_tok': 19, 'decide_tok_result': 20, 'decide_tok_filter': 21, 'decide_tok_filterresult': 22,
             'decide_skipcb_unit': 23, 'decide_skipcb_result': 24, 'decide_bump': 25,
-            'decide_bool_b': 10, 'decide_filter_b': 13}
+            'decide_bool_b': 10, 'decide_filter_b': 13,
+            'named::boolish::skip': 10, 'named::filt::skip': 13, 'named::fr::skip': 14, 'named::valueish::skip': 18,
+            'named::bumping::skip': 25, 'named::unitish::skip': 23, 'named::resultish::skip': 24}
 
 
 def behaviour_codes(c):
@@ -191,6 +193,9 @@ def parse_model_output(lines):
         elif ln.startswith('C '):
             p = ln.split()
             res['C:' + p[1]] = [x == '1' for x in p[2:9]]
+        elif ln.startswith('GB '):
+            p = ln.split()
+            res['GB:' + p[1]] = [x == '1' for x in p[2:8]]
     return res
 
 
